@@ -60,6 +60,38 @@ def check_line(case, ev):
         return core.exc_finding(exc, case, "ctor/")
     if via == "direct":
         out, exc = guarded(anonymize_as_numbers, an, line)
+    elif via in ("cli-n", "cli-an", "cli-un"):
+        # through the command line: -n alone, with -a, with -u.  With an address option the AS oracle is
+        # applied between the output of the run without -n (trusted here; C01-C06 judge it) and with it
+        import os
+        import shutil
+        import tempfile
+
+        from netconan.netconan import main
+
+        salt = salt_ = salt if salt and not salt.startswith("-") else "s" + salt
+        an, exc = guarded(AsNumberAnonymizer, list(nums), salt_)
+        if exc is not None:
+            return core.exc_finding(exc, case, "ctor/")
+        d = tempfile.mkdtemp(prefix="vf-c11-")
+        try:
+            with open(os.path.join(d, "in.cfg"), "w", encoding="utf-8", newline="") as fh:
+                fh.write(line + "\n")
+            flag = {"cli-n": [], "cli-an": ["-a"], "cli-un": ["-u"]}[via]
+            base = None
+            if flag:
+                _, exc = guarded(main, ["-i", os.path.join(d, "in.cfg"), "-o", os.path.join(d, "base.cfg"), "-s", salt_] + flag)
+                if exc is not None:
+                    return core.exc_finding(exc, case, "main/")
+                base = open(os.path.join(d, "base.cfg"), encoding="utf-8", newline="").read()
+            _, exc = guarded(main, ["-i", os.path.join(d, "in.cfg"), "-o", os.path.join(d, "out.cfg"), "-s", salt_, "-n", ",".join(nums)] + flag)
+            if exc is None:
+                out = open(os.path.join(d, "out.cfg"), encoding="utf-8", newline="").read()
+                out = out[:-1] if out.endswith("\n") else out
+                if base is not None:
+                    line = base[:-1] if base.endswith("\n") else base
+        finally:
+            shutil.rmtree(d, ignore_errors=True)
     elif via == "io-pwd":
         # password anonymization switched on as well: the AS oracle is applied between the output of
         # a passwords-only anonymizer (trusted here; C07-C09 judge it) and the combined output
@@ -212,7 +244,7 @@ def _case(draw):
         segs.insert(draw(st.integers(0, len(segs))), draw(st.sampled_from([" 10.1.10.1 ", " 1.10 ", " 2.10", "rd 65001.100 ", " 3.65001 ", "10.174.0.1", " 1.0.1 ", "v1.10.2"])))
     if draw(st.booleans()):
         segs[-1] = draw(st.sampled_from(["", "", " ", ";"]))
-    via = draw(st.sampled_from(["direct", "direct", "io", "io-pwd"]))
+    via = draw(st.sampled_from(["direct", "direct", "io", "io-pwd", "direct", "io", "cli-n", "cli-an", "cli-un"]))
     line = "".join(segs)
     if via == "io-pwd":
         line = line + draw(st.sampled_from([" password Zq9xWv", "\tkey 7 0822455D0A16", "  secret 5 $1$abcd$0123456789012345678901", " ", ""]))
